@@ -512,8 +512,12 @@ def _default_state(d):
         return ("dict", list(d.items()))
     if isinstance(d, Points):
         return ("points", tuple(d._t.shape), list(d.space.keys()), d._t.detach().clone().tolist())
-    if isinstance(d, PointSampler):
-        return ("sampler", type(d).__name__, sorted((k, repr(v)) for k, v in vars(d).items()))
+    if isinstance(d, PointSampler):     # behaviour only: kind, static flag, length
+        try:
+            n = len(d)
+        except Exception:   # noqa: BLE001
+            n = None
+        return ("sampler", type(d).__name__, bool(d.is_static), n)
     return None
 
 
@@ -887,7 +891,10 @@ def run_case(spec, ctx):
             xs = {"left": torch.tensor([[lo]]), "right": torch.tensor([[lo + w]])}
             ts = {"left": None, "right": None}
         else:
-            probe = _Pool(spec).get("sampler", p.sampler).sample_points().as_tensor
+            ok, probe = guarded(f"op {pos}: sample a fresh copy of sampler #{p.sampler}", "probe-sampler",
+                                lambda: _Pool(spec).get("sampler", p.sampler).sample_points().as_tensor)
+            if not ok or not isinstance(probe, torch.Tensor) or probe.dim() != 2:
+                return
             lo, w = pool.p["tdom"]
             xs = {"left": probe, "right": probe}
             ts = {"left": torch.full_like(probe, lo), "right": torch.full_like(probe, lo + w)}
@@ -945,7 +952,10 @@ def run_case(spec, ctx):
     # models are only read by conditions
     fresh = _Pool(spec)
     for key, state in pool.model_states().items():
-        ref = fresh.get(key[0], key[1]).state_dict()
+        ok, ref = guarded(f"rebuild {key[0]} #{key[1]}", "rebuild-model",
+                          lambda: fresh.get(key[0], key[1]).state_dict())
+        if not ok:
+            break
         for name, t in state.items():
             if name not in ref or ref[name].shape != t.shape or not torch.equal(ref[name], t):
                 once("model-weights-modified", key[0],
